@@ -65,20 +65,26 @@ json_t *json_deep_copy(const json_t *j) { JREAL(json_deep_copy); json_t *r = rea
  * accounting allocator installed through jwt_set_alloc is corrupted otherwise): live blocks are tracked in a hash set */
 #define PT_SIZE (1u << 18)
 static void *pt[PT_SIZE];
-static unsigned long foreign_frees, tracked_allocs;
+static unsigned ptsz[PT_SIZE];
+static unsigned long foreign_frees, tracked_allocs, quarantined, writes_after_free;
 static const char *cur_scen = "-";
 static unsigned pt_slot(void *p) { return (unsigned)(((uintptr_t)p >> 4) * 2654435761u) & (PT_SIZE - 1); }
-static void pt_add(void *p)
+static void pt_add(void *p, size_t n)
 {
-	unsigned i = pt_slot(p);
-	while (pt[i] && pt[i] != (void *)1) i = (i + 1) & (PT_SIZE - 1);
-	pt[i] = p;
+	unsigned i = pt_slot(p), spare = PT_SIZE;
+	/* an entry for the same address is stale (the application released that block with free() itself, e.g. a returned token): reuse it */
+	for (unsigned k = 0; k < PT_SIZE && pt[i]; k++, i = (i + 1) & (PT_SIZE - 1)) {
+		if (pt[i] == p) { ptsz[i] = (unsigned)n; return; }
+		if (pt[i] == (void *)1 && spare == PT_SIZE) spare = i;
+	}
+	if (spare != PT_SIZE) i = spare;
+	pt[i] = p; ptsz[i] = (unsigned)n;
 }
-static int pt_del(void *p)
+static int pt_del(void *p, size_t *n)
 {
 	unsigned i = pt_slot(p);
-	for (unsigned n = 0; n < PT_SIZE && pt[i]; n++, i = (i + 1) & (PT_SIZE - 1))
-		if (pt[i] == p) { pt[i] = (void *)1; return 1; }
+	for (unsigned k = 0; k < PT_SIZE && pt[i]; k++, i = (i + 1) & (PT_SIZE - 1))
+		if (pt[i] == p) { pt[i] = (void *)1; *n = ptsz[i]; return 1; }
 	return 0;
 }
 static void *my_malloc(size_t n)
@@ -89,15 +95,39 @@ static void *my_malloc(size_t n)
 		if (alloc_count == fail_at) { record_chain(); return NULL; }
 	}
 	p = malloc(n);
-	if (p) { pt_add(p); tracked_allocs++; }
+	if (p) { pt_add(p, n); tracked_allocs++; }
 	return p;
 }
+/* jansson is not instrumented, so the sanitizer sees neither its reads nor its writes: freed blocks are therefore filled with a pattern and
+ * kept until the scenario run is over; a block whose pattern has changed by then was written to after it was freed (a dangling json_t that
+ * is dereferenced reads the pattern: its reference count, type and pointers are 0xDD..., which ends in such a write or in a fault) */
+#define QMAX 400000
+static struct { void *p; unsigned n; } quar[QMAX];
+static unsigned nquar;
 static void my_free(void *p)
 {
-	if (p && !pt_del(p)) {
+	size_t n = 0;
+	if (!p) return;
+	if (!pt_del(p, &n)) {
 		if (foreign_frees++ < 20) printf("[\"FF\",\"%s\",%ld]\n", cur_scen, fail_at);
+		free(p);
+		return;
 	}
-	free(p);
+	if (nquar < QMAX) { memset(p, 0xDD, n); quar[nquar].p = p; quar[nquar].n = (unsigned)n; nquar++; quarantined++; }
+	else free(p);
+}
+static void quarantine_release(void)
+{
+	for (unsigned i = 0; i < nquar; i++) {
+		const unsigned char *b = quar[i].p;
+		for (unsigned j = 0; j < quar[i].n; j++)
+			if (b[j] != 0xDD) {
+				if (writes_after_free++ < 20) printf("[\"WF\",\"%s\",%ld,%u,%u]\n", cur_scen, fail_at, quar[i].n, j);
+				break;
+			}
+		free(quar[i].p);
+	}
+	nquar = 0;
 }
 
 /* ---- fixtures (created fault-free) -------------------------------------------- */
@@ -441,6 +471,7 @@ int main(int argc, char **argv)
 		cur_scen = s->name; fail_at = 0;
 		run_scenario(s, &base);
 		inject_on = 0;
+		quarantine_release();
 		n = alloc_count;
 		{
 			printf("[\"B\",%d,\"%s\",%ld,%d,", si, s->name, n, base.rc); { char t[200]; snprintf(t, sizeof(t), "%.180s", base.text); vh_put_jstr(stdout, t); } printf("]\n");
@@ -456,6 +487,7 @@ int main(int argc, char **argv)
 			inject_on = 1; alloc_count = 0; fail_at = k;
 			run_scenario(s, &got);
 			inject_on = 0;
+			quarantine_release();
 			if (alloc_count < k) outcome = "not-reached";
 			else if (s->kind == T_VERIFY) {
 				if (got.reported) outcome = "reported";
@@ -482,7 +514,8 @@ int main(int argc, char **argv)
 			printf("]\n");
 		}
 	}
-	printf("[\"PT\",%lu,%lu]\n", tracked_allocs, foreign_frees);
+	quarantine_release();
+	printf("[\"PT\",%lu,%lu,%lu,%lu]\n", tracked_allocs, foreign_frees, quarantined, writes_after_free);
 	printf("[\"END\"]\n");
 	return 0;
 }
